@@ -145,6 +145,32 @@ impl Grammar {
         Grammar { nts, alts, start: 0 }
     }
 
+    // Minimal token length of each nonterminal (usize::MAX = derives nothing).
+    pub fn min_lengths(&self) -> Vec<usize> {
+        let mut m = vec![usize::MAX; self.nts.len()];
+        loop {
+            let mut changed = false;
+            for nt in 0..self.nts.len() {
+                for alt in &self.alts[nt] {
+                    let mut t = 0usize;
+                    for s in alt {
+                        t = t.saturating_add(match s {
+                            Sym::T(_) => 1,
+                            Sym::N(n) => m[*n],
+                        });
+                    }
+                    if t < m[nt] {
+                        m[nt] = t;
+                        changed = true;
+                    }
+                }
+            }
+            if !changed {
+                return m;
+            }
+        }
+    }
+
     pub fn nt(&self, name: &str) -> usize {
         self.nts
             .iter()
@@ -172,6 +198,7 @@ impl Grammar {
 // Derivation trees by token length.
 pub struct Enumerator {
     pub g: Grammar,
+    minlen: Vec<usize>,
     memo_nt: HashMap<(usize, usize), u64>,
     memo_seq: HashMap<(usize, usize, usize, usize), u64>,
     in_progress: std::collections::HashSet<(usize, usize)>,
@@ -179,7 +206,8 @@ pub struct Enumerator {
 
 impl Enumerator {
     pub fn new(g: Grammar) -> Enumerator {
-        Enumerator { g, memo_nt: HashMap::new(), memo_seq: HashMap::new(), in_progress: Default::default() }
+        let minlen = g.min_lengths();
+        Enumerator { g, minlen, memo_nt: HashMap::new(), memo_seq: HashMap::new(), in_progress: Default::default() }
     }
 
     pub fn count(&mut self, nt: usize, len: usize) -> u64 {
@@ -216,19 +244,32 @@ impl Enumerator {
             }
             Sym::N(m) => {
                 let mut t = 0u64;
-                for l in 0..=len {
-                    let rest = self.count_seq(nt, alt, k + 1, len - l);
-                    if rest == 0 {
-                        continue;
-                    }
+                let tail = self.min_tail(nt, alt, k + 1);
+                let mut l = self.minlen[m];
+                while l != usize::MAX && l + tail <= len {
                     let c = self.count(m, l);
-                    t = t.checked_add(c.checked_mul(rest).expect("count overflow")).expect("count overflow");
+                    if c != 0 {
+                        let rest = self.count_seq(nt, alt, k + 1, len - l);
+                        t = t.checked_add(c.checked_mul(rest).expect("count overflow")).expect("count overflow");
+                    }
+                    l += 1;
                 }
                 t
             }
         };
         self.memo_seq.insert((nt, alt, k, len), r);
         r
+    }
+
+    fn min_tail(&self, nt: usize, alt: usize, k: usize) -> usize {
+        let mut t = 0usize;
+        for s in &self.g.alts[nt][alt][k..] {
+            t = t.saturating_add(match s {
+                Sym::T(_) => 1,
+                Sym::N(m) => self.minlen[*m],
+            });
+        }
+        t
     }
 
     pub fn unrank(&mut self, nt: usize, len: usize, mut r: u64) -> Tree {
@@ -255,12 +296,16 @@ impl Enumerator {
                 self.unrank_seq(nt, alt, k + 1, len - 1, r, kids);
             }
             Sym::N(m) => {
-                for l in 0..=len {
+                let tail = self.min_tail(nt, alt, k + 1);
+                for l in self.minlen[m]..=len.saturating_sub(tail) {
+                    let c = self.count(m, l);
+                    if c == 0 {
+                        continue;
+                    }
                     let rest = self.count_seq(nt, alt, k + 1, len - l);
                     if rest == 0 {
                         continue;
                     }
-                    let c = self.count(m, l);
                     let block = c * rest;
                     if r < block {
                         kids.push(self.unrank(m, l, r / rest));
